@@ -771,7 +771,7 @@ class Rule(object):
             if rule_child_max is not INFINITY and occurrence > rule_child_max:
                 msg = (
                     f"Maximum occurrence of '{rule_child_max}' "
-                    f"exceeded for child '{self._node_children_names[self._node_index]}' in parent "
+                    f"exceeded for child '{rule_child_name}' in parent "
                     f"'{self._node.name}'"
                 )
                 if errs is None:
